@@ -145,6 +145,9 @@ pub struct Prog {
     /// a stabilise*, after its driver has already changed its dependencies or called make_stale (after seed C14-e).
     /// `ObsX` / `DropX` then act on V. Only without Inner candidates and without invalidate.
     pub via: bool,
+    /// the history never drops the observer of the expert node (of V in `via` programs): a smaller alphabet for the
+    /// focused programs that need 11 actions
+    pub no_drop: bool,
 }
 
 impl Prog {
@@ -168,6 +171,7 @@ impl Prog {
             "inval": self.inval,
             "obs_d": self.obs_d,
             "via": self.via,
+            "no_drop": self.no_drop,
         })
     }
     pub fn from_json(j: &Json) -> Option<Prog> {
@@ -197,6 +201,7 @@ impl Prog {
             inval: j["inval"].as_bool()?,
             obs_d: j["obs_d"].as_bool()?,
             via: j["via"].as_bool().unwrap_or(false),
+            no_drop: j["no_drop"].as_bool().unwrap_or(false),
         })
     }
 }
@@ -980,7 +985,18 @@ impl ExpertWorld {
         }
         let hgen = self.h.borrow().gen;
         if hgen != self.model.gen {
-            vs.push(Violation::new("MACHINERY", "machinery", "model", format!("regular bind ran {hgen} times, reference expected {}", self.model.gen)));
+            // The regular bind `k.bind(..)` of the harness graph is an ordinary node: it must run exactly when it is needed
+            // (through its pinned observer or through the expert node) and k changed. A disagreement is the engine's
+            // (C05: ran although nothing needs it / nothing changed; C01: did not re-run), not this check's business
+            // (C14 / C11): it is filed under those properties ("seen, not judged here") and the history is abandoned,
+            // because the C14 monitors below are only meaningful while the reference tracks the bind (found with seed
+            // C11-f, where the first version filed it as a machinery error and so hid the audit findings of the run).
+            let (prop, rule) = if hgen > self.model.gen { ("C05", "C05.expert_world:regular_bind_ran_unneeded") } else { ("C01", "C01.expert_world:regular_bind_not_rerun") };
+            vs.push(Violation::new(prop, rule, cons, format!("regular bind ran {hgen} times, reference expected {}", self.model.gen)));
+            self.model.gen = hgen;
+            self.dead = true;
+            self.explain = format!("log: {log:?}");
+            return;
         }
         // ---- the log
         let mut recomputes = 0usize;
@@ -1251,7 +1267,7 @@ impl World for ExpertWorld {
                 }
             }
         }
-        if m.obs_x.is_some() {
+        if m.obs_x.is_some() && !p.no_drop {
             out.push(Act::DropX);
         }
         if p.obs_d {
